@@ -210,19 +210,31 @@ def attach (o : BinOp) (l : Expr) : Expr → Expr
   | .bin o' r1 r2 => if o' = o then .bin o (attach o l r1) r2 else .bin o l (.bin o' r1 r2)
   | r => .bin o l r
 
-def norm : Expr → Expr
-  | .bin o a b => if o.omitSame then attach o (norm a) (norm b) else .bin o (norm a) (norm b)
-  | .neg a => .neg (norm a)
-  | .not a => .not (norm a)
-  | .dot a f => .dot (norm a) f
-  | .group a f => .group (norm a) f
-  | .index a i => .index (norm a) (norm i)
-  | .range a i j => .range (norm a) (norm i) (norm j)
-  | .query v s c => .query v (norm s) (norm c)
-  | .call f args => .call f (norm args)
-  | .aggr items => .aggr (norm items)
-  | .cons e t => .cons (norm e) (norm t)
-  | .rep e c t => .rep (norm e) (norm c) (norm t)
+/-- operators that are associative in EXPRESS (ISO 10303-11 clause 12): the specification side of "redundant parentheses" -/
+def BinOp.assocInExpress : BinOp → Bool
+  | .and | .or | .xor | .plus | .times | .concat => true
+  | _ => false
+
+/-- re-association to the left of chains of one operator `o` with `f o` -/
+def normWith (f : BinOp → Bool) : Expr → Expr
+  | .bin o a b => if f o then attach o (normWith f a) (normWith f b) else .bin o (normWith f a) (normWith f b)
+  | .neg a => .neg (normWith f a)
+  | .not a => .not (normWith f a)
+  | .dot a g => .dot (normWith f a) g
+  | .group a g => .group (normWith f a) g
+  | .index a i => .index (normWith f a) (normWith f i)
+  | .range a i j => .range (normWith f a) (normWith f i) (normWith f j)
+  | .query v s c => .query v (normWith f s) (normWith f c)
+  | .call g args => .call g (normWith f args)
+  | .aggr items => .aggr (normWith f items)
+  | .cons e t => .cons (normWith f e) (normWith f t)
+  | .rep e c t => .rep (normWith f e) (normWith f c) (normWith f t)
   | e => e
+
+/-- what the parser reads back from exppp's text: chains are flattened exactly where exppp omits parentheses -/
+def norm : Expr → Expr := normWith BinOp.omitSame
+
+/-- the specification's normal form: only operators that are associative in EXPRESS are re-associated -/
+def normSpec : Expr → Expr := normWith BinOp.assocInExpress
 
 end StepModel.Express
